@@ -31,7 +31,8 @@ def build_impl(sc0, sid):
         idecl += ["}", ""]
     elif sc["ikind"] == "nonIface":
         idecl = ["// I is not an interface.", "type I struct{}", ""]
-    d = ["package d", "", "type N struct{}", "", "type AN = N", "",
+    d = ["package d", "", "type N struct{}", "", "type AN = N", "", "// V is never implemented by the scenario's types.", "type V interface {", "\tNope()", "}", "",
+         "// E0 is implemented by everything.", "type E0 interface{}", "",
          "// Sealed can only be implemented by embedding a type of this package.", "type Sealed interface {", "\tseal()", "}", "",
          "type Base struct{}", "", "func (Base) seal() {}", "", "type PBase struct{}", "", "func (*PBase) seal() {}", ""]
     bar = ["package bar", "", "type N struct{}", ""]
@@ -68,7 +69,14 @@ def build_impl(sc0, sid):
     if ipkg == "u":
         u += idecl
     iface_name = "Sealed" if sc.get("sealed") else "I"
-    u += ["// T is the annotated type.", "// @implements %s%s%s" % ("&" if sc["cptr"] else "", q, iface_name)]
+    second = sc.get("second", "none")
+    sec_line = {"unbound": "// @implements nope2.J", "viol": "// @implements d.V", "ok": "// @implements d.E0"}.get(second[:-1])
+    u += ["// T is the annotated type."]
+    if sec_line and second.endswith("1"):
+        u.append(sec_line)
+    u.append("// @implements %s%s%s" % ("&" if sc["cptr"] else "", q, iface_name))
+    if sec_line and second.endswith("2"):
+        u.append(sec_line)
     line_of_T = None
     meth = []
     if sc["recv"] != "none":
@@ -114,6 +122,15 @@ def build_impl(sc0, sid):
 MISSING_RE = re.compile(r"^  (\w+)\(", re.M)
 
 
+def observed_all(diags):
+    """Set of (code, missing method names) over all IMPL diagnostics."""
+    out = set()
+    for d in diags:
+        if d["code"] and d["code"].startswith("IMPL"):
+            out.add(observed([d])[:2])
+    return out
+
+
 def observed(diags):
     """(code, missing method names, line) of the IMPL diagnostic on u/u.go, or ("none", (), None)."""
     impl = [d for d in diags if d["code"] and d["code"].startswith("IMPL")]
@@ -130,3 +147,91 @@ def observed(diags):
         body = re.split(r"\n\s*\|\n|\n\s+\|", body)[0]
         names = tuple(sorted(set(MISSING_RE.findall(body))))
     return (d["code"], names, d["line"])
+
+
+def universes_program(sid="C05_universes"):
+    """A package with an in-package test (so that the standalone driver type-checks it twice: plain and test variant), an
+    importer, and an external test that imports the importer: implementers of one interface live in both type-checking
+    universes.  Returns (program for the real drivers, expected (file, line, code) keys)."""
+    store = """package store
+
+// Key names an item.
+type Key string
+
+// Item is a stored value.
+type Item struct {
+	K Key
+	V []byte
+}
+
+// Store is the contract.
+type Store interface {
+	Get(k Key) (Item, error)
+	Put(k Key, it Item) error
+	Keys() []Key
+}
+
+// Sizer mentions universe types only.
+type Sizer interface {
+	Size() int
+}
+"""
+    internal = """package store
+
+// helper of the in-package test: makes the test variant differ from the plain package
+func testKey() Key { return Key("k") }
+"""
+    mem = """package mem
+
+import "m/store"
+
+// Mem is a correct implementation.
+// @implements &store.Store
+// @implements &store.Sizer
+type Mem struct{ m map[store.Key]store.Item }
+
+func (m *Mem) Get(k store.Key) (store.Item, error) { return m.m[k], nil }
+
+func (m *Mem) Put(k store.Key, it store.Item) error { m.m[k] = it; return nil }
+
+func (m *Mem) Keys() []store.Key { return nil }
+
+func (m *Mem) Size() int { return len(m.m) }
+
+// ReadOnly lacks Put.
+// @implements &store.Store
+type ReadOnly struct{}
+
+func (r *ReadOnly) Get(k store.Key) (store.Item, error) { return store.Item{}, nil }
+
+func (r *ReadOnly) Keys() []store.Key { return nil }
+"""
+    ext = """package store_test
+
+import (
+	"m/store"
+	"m/store/mem"
+)
+
+// fakeStore is a correct test double.
+// @implements &store.Store
+// @implements &store.Sizer
+type fakeStore struct{}
+
+func (f *fakeStore) Get(k store.Key) (store.Item, error) { return store.Item{}, nil }
+
+func (f *fakeStore) Put(k store.Key, it store.Item) error { return nil }
+
+func (f *fakeStore) Keys() []store.Key { return nil }
+
+func (f *fakeStore) Size() int { return 0 }
+
+var _ = mem.Mem{}
+"""
+    prog = {"id": sid, "pkgs": [
+        {"path": "m/store", "name": "store", "files": [{"name": "store/store.go", "src": store},
+                                                         {"name": "store/internal_test.go", "src": internal},
+                                                         {"name": "store/ext_test.go", "src": ext}]},
+        {"path": "m/store/mem", "name": "mem", "files": [{"name": "store/mem/mem.go", "src": mem}]}]}
+    line = mem.split("\n").index("type ReadOnly struct{}") + 1
+    return prog, {("store/mem/mem.go", line, "IMPL03")}
